@@ -228,10 +228,11 @@ class StrBuf:
     def as_ref(self): return SliceRef(self.b, 0, len(self.b), 'str')
 
 class ByteBuf:
-    """BytesMut / Bytes / Vec<u8> used as bytes"""
-    __slots__ = ('b', 'kind')
+    """BytesMut / Bytes / Vec<u8> used as bytes.  `spare` = the bytes of the allocation beyond len (capacity - len): they
+    keep their old contents after truncate and are what split_off(at > len) / unsplit / resize operate on"""
+    __slots__ = ('b', 'kind', 'spare', 'tail_of')
     def __init__(self, b, kind='BytesMut'):
-        self.b = list(b); self.kind = kind
+        self.b = list(b); self.kind = kind; self.spare = []; self.tail_of = None
     def __repr__(self): return self.kind + show_bytes(self.b)
     def as_ref(self): return SliceRef(self.b, 0, len(self.b), 'slice')
 
